@@ -11,6 +11,10 @@
        SFun NAME ws           a function name — possibly namespaced: np.sqrt — followed by blanks; the next token starts with "("
        SKw k                  a Python keyword (if else and or not in is …) between non-word characters
        SVerb body             a backticked fragment `body` (no backtick or newline inside)
+       SLt tail               the comparison `<` (tail "") or `<=` (tail "=") — `<` is not inert: it opens an <error> term;
+                              the side condition is that term_re's < NAME > alternative does not match here (lt_free: decided
+                              by the regex model itself; true e.g. before a digit, `(`, `-`, `=`, and before NAME not followed
+                              by blanks and `>`)
    `render` is the statement text, `items_of` what term_re.finditer is claimed to return on it (CodeGenSrcFacts.scan_render
    proves the claim for every well-formed list), `wf` the side conditions: names are identifiers and no keywords, a
    plain name is not followed by a character that continues it, by `[`, or (after blanks) by `(`, etc. *)
@@ -26,7 +30,8 @@ Inductive stok : Type :=
 | SBra (par : bool) (w1 name w2 : string) (idx : option string)      (* par = true: { }, false: < > *)
 | SFun (name ws : string)
 | SKw (k : string)
-| SVerb (body : string).
+| SVerb (body : string)
+| SLt (tail : string).
 
 Definition idx_text (idx : option string) : string :=
   match idx with None => "" | Some b => String "[" (b ++ "]") end.
@@ -39,6 +44,7 @@ Definition stok_text (t : stok) : string :=
   | SFun n ws => n ++ ws
   | SKw k => k
   | SVerb b => String "`" (b ++ "`")
+  | SLt tail => String "<" tail
   end.
 Fixpoint render (ts : list stok) : string :=
   match ts with [] => "" | t :: r => stok_text t ++ render r end.
@@ -57,6 +63,7 @@ Definition stok_match (t : stok) : option tmatch :=
   | SFun n ws => Some (mkMatch KFunction n None (String.length n + String.length ws))
   | SKw k => Some (mkMatch KKeyword k None (String.length k))
   | SVerb b => Some (mkMatch KVerbatim (String "`" (b ++ "`")) None (2 + String.length b))
+  | SLt _ => None
   end.
 
 Fixpoint items_of (pos : nat) (ts : list stok) : list item :=
@@ -73,6 +80,10 @@ Definition idx_ok (idx : option string) : bool :=
   match idx with None => true | Some b => negb (has_char "]" b) && negb (has_nl (re_strip b)) end.
 Fixpoint in_kw (name : string) (kws : list string) : bool :=
   match kws with [] => false | k :: r => String.eqb name k || in_kw name r end.
+
+(* `<` followed by s does not open an <error> term *)
+Definition lt_free (s : string) : bool :=
+  match try_bracketed "<" ">" KError (String "<" s) with None => true | Some _ => false end.
 
 (* the \b state after a text (LexFacts.last_word) is threaded through the sequence: a keyword needs a non-word
    character (or the beginning of the text) before it *)
@@ -92,6 +103,7 @@ Definition stok_ok (pw : bool) (t : stok) (rest : string) : bool :=
                | String c _ => negb (Ascii.eqb c nl) && negb (has_char "`" b) && negb (has_nl b)
                | "" => false
                end
+  | SLt tail => (String.eqb tail "" || String.eqb tail "=") && lt_free (tail ++ rest)
   end.
 Fixpoint wf_at (pw : bool) (ts : list stok) : bool :=
   match ts with [] => true | t :: r => stok_ok pw t (render r) && wf_at (last_word pw (stok_text t)) r end.
